@@ -295,6 +295,20 @@ def check(tier):
             dist["injections"] += 1
             if got != evs[:k + 1] or oc is None or oc[0] != "injected" or oc[1] != "%s%d" % (kind, idx):
                 problems.append(("abort", s, False, {"fail_at": [kind, idx], "log": got, "expected_log": evs[:k + 1], "error": r.get("error")}))
+    # (d') the same through ParseAndEvaluate: the evaluation callback fails at reduction k; the caller must get that
+    #      very error (identity, not a textual copy) after exactly the first k+1 evaluation calls
+    dist["eval_injections"] = 0
+    for s, evs in accepted[: (25 if tier == "quick" else 400)]:
+        nred = sum(1 for e in evs if e[0] == "prod")
+        full = hook.call({"op": "parse_trace", "mode": "eval", "tokens": fake(s)}).get("log", [])
+        steps = list(range(nred)) if nred <= 30 else sorted(rng.sample(range(nred), 14))
+        for k in steps:
+            r = hook.call({"op": "parse_trace", "mode": "eval", "tokens": fake(s), "fail_at": {"kind": "eval", "index": k}})
+            oc = outcome_of(r, len(s))
+            dist["eval_injections"] += 1
+            if r.get("log", []) != full[:k + 1] or oc is None or oc[0] != "injected" or oc[1] != "eval%d" % k or "value" in r:
+                problems.append(("abort", s, False, {"fail_at": ["eval", k], "log": [(e[0], e[1]) for e in r.get("log", [])],
+                                                     "expected_log": [(e[0], e[1]) for e in full[:k + 1]], "error": r.get("error")}))
     hook.close()
 
     # (e) Coq model on the same cases
@@ -327,7 +341,7 @@ def check(tier):
             rep.violation("cases", {"theorem": "gen/cases_C18_*.v does not compile", "log": cerr[-3000:]}, no_input=True)
     else:
         rep.obligation("correspondence: Parse/ParseAndBuildAST vs Coq driver on %d token streams" % len(cases), not badidx)
-    rep.obligation("correspondence: ParseAndEvaluate arguments/positions and abort-at-injected-failure (%d injections)" % dist["injections"],
+    rep.obligation("correspondence: ParseAndEvaluate arguments/positions and abort-at-injected-failure (%d injections through Parse, %d through ParseAndEvaluate)" % (dist["injections"], dist["eval_injections"]),
                    not problems)
     for i in badidx[:3]:
         c = cases[i]
